@@ -125,3 +125,72 @@ func isPermutation(a, b string) bool {
 	}
 	return a != b
 }
+
+// accessorKeyRule: a keeper reader / deleter (Get*, Has*, Delete*) looks its record up under
+// a key built from what it was asked for: every identifier handed to the key constructor
+// comes from the accessor's parameters (or from a record it loaded), never from a value that
+// is still zero at that point (a field of the not-yet-filled named result is the usual slip).
+func accessorKeyRule(p *Prog, r *Report, rule string, mods map[string]bool, floor int) {
+	r.Rule(rule, "readers and deleters build their store key from their parameters, not from a still-zero value", floor)
+	var fns []*ssa.Function
+	for _, fn := range p.Funcs {
+		if !mods[moduleOf(fn)] || p.isAuxFn(fn) || len(fn.Blocks) == 0 || fn.Signature.Recv() == nil || !strings.HasSuffix(fnPkgPath(fn), "/keeper") {
+			continue
+		}
+		n := fn.Name()
+		if strings.HasPrefix(n, "Get") || strings.HasPrefix(n, "Has") || strings.HasPrefix(n, "Delete") {
+			fns = append(fns, fn)
+		}
+	}
+	sort.Slice(fns, func(i, j int) bool { return fname(fns[i]) < fname(fns[j]) })
+	for _, fn := range fns {
+		k := 0
+		for _, c := range calls(fn) {
+			sc := c.Common().StaticCallee()
+			if sc == nil || !isComdexFn(sc) || sc.Signature.Recv() != nil || !strings.HasSuffix(fnPkgPath(sc), "/types") || !strings.Contains(sc.Name(), "Key") {
+				continue
+			}
+			res := sc.Signature.Results()
+			if res.Len() != 1 {
+				continue
+			}
+			if sl, ok := res.At(0).Type().Underlying().(*types.Slice); !ok || !types.Identical(sl.Elem(), types.Typ[types.Byte]) {
+				continue
+			}
+			if len(c.Common().Args) == 0 {
+				continue
+			}
+			k++
+			r.Instance(rule)
+			r.FuncsSeen[fname(fn)] = true
+			construct := fmt.Sprintf("%s -> %s #%d", fname(fn), sc.Name(), k)
+			bad := ""
+			for i, a := range c.Common().Args {
+				for _, o := range p.Origins(a) {
+					if o.Kind != "alloc" {
+						continue
+					}
+					al, isA := o.Val.(*ssa.Alloc)
+					if !isA {
+						continue
+					}
+					// a local that nothing has been stored into on the way here: its zero value
+					path := o.Path
+					ld, _ := a.(ssa.Instruction)
+					if ld == nil {
+						ld = c
+					}
+					defs, entry := reachingStores(al, path, c)
+					if entry && len(defs) == 0 {
+						bad = fmt.Sprintf("argument %d (%s) is read from %s, which nothing has been stored into yet", i, sc.Signature.Params().At(i).Name(), al.Comment)
+					}
+				}
+			}
+			if bad == "" {
+				r.OK(rule, construct, "key built from the accessor's inputs", p.instrPos(c))
+			} else {
+				r.Fail(rule, construct, "the store key is built from a value that is still zero: "+bad+"; every caller is served the record stored under id 0 (or none), whatever it asked for", p.instrPos(c), nil)
+			}
+		}
+	}
+}
